@@ -372,8 +372,11 @@ pub fn build_sllbi(op: &Op) -> hmat::SystemLocality {
                 s.minimum_transfer_size_required()
             }
         }
-        for (i, j, v) in cells {
+        for (k, (i, j, v)) in cells.iter().enumerate() {
             s.set_entry_value(*i, *j, *v);
+            if ni * nt <= 64 {
+                peek(&s, k);
+            }
         }
         for f in &flags[half..] {
             if *f == 0 {
@@ -421,6 +424,16 @@ pub fn build_rqsc_resource(r: &RqscRes) -> rqsc::ResourceStructure {
     rqsc::ResourceStructure::new(if r.ty == 0 { rqsc::ResourceType::Cache } else { rqsc::ResourceType::Memory }, r.flags, id)
 }
 
+/// Serialise a sub-object that is still being built, into a throw-away sink, for about a third of the
+/// call sites' steps: looking at an object must not change what it (or a clone of it) emits later.
+pub fn peek(o: &dyn acpi_tables::Aml, step: usize) {
+    if step % 3 == 1 {
+        let mut sink = crate::sinks::ByteOnly::default();
+        o.to_aml_bytes(&mut sink);
+        let _ = acpi_tables::u8sum(o);
+    }
+}
+
 pub fn build_controller(op: &Op) -> rqsc::QoSController {
     if let Op::Controller { bandwidth, reg, rcid, mcid, flags, res } = op {
         let mut c = rqsc::QoSController::new(
@@ -433,11 +446,13 @@ pub fn build_controller(op: &Op) -> rqsc::QoSController {
         // the controller is Clone: half of the resources go into the original, the rest into a clone
         // of it (which must carry the accumulated length and count along)
         let half = res.len() / 2;
-        for r in &res[..half] {
+        for (k, r) in res[..half].iter().enumerate() {
             c.add_resource(build_rqsc_resource(r));
+            peek(&c, k + res.len());
         }
         let mut c2 = if res.len() % 3 == 0 { c } else { c.clone() };
-        for r in &res[half..] {
+        for (k, r) in res[half..].iter().enumerate() {
+            peek(&c2, k + *rcid as usize);
             c2.add_resource(build_rqsc_resource(r).clone());
         }
         c2
@@ -728,8 +743,9 @@ impl Real {
                 let mut n = pptt::ProcessorNode::new(parent.map(|i| &procs[i]), *id);
                 // interleave cache adds and flag calls
                 let mut fi = flag_calls.iter();
-                for c in cs {
+                for (k, c) in cs.iter().enumerate() {
                     n = n.add_cache(&caches[*c]);
+                    peek(&n, k + *id as usize);
                     if let Some(f) = fi.next() {
                         n = proc_flag(n, *f);
                     }
@@ -760,8 +776,9 @@ impl Real {
             }
             (Real::Rhct { t, isas, cmos }, Op::HartInfo { uid, isa, cmos: cs }) => {
                 let mut n = rhct::HartInfoNode::new(*uid, &isas[*isa]);
-                for c in cs {
+                for (k, c) in cs.iter().enumerate() {
                     n = n.with_cmo(&cmos[*c]);
+                    peek(&n, k + *uid as usize);
                 }
                 t.add_hart_info(n);
             }
@@ -809,8 +826,9 @@ impl Real {
             }
             (Real::Cedt(t), Op::Cxims { gran, maps }) => {
                 let mut x = cedt::XorInterleaveMath::new(granularity(*gran));
-                for m in maps {
+                for (k, m) in maps.iter().enumerate() {
                     x.add_xormap(*m);
+                    peek(&x, k + maps.len());
                 }
                 t.add_xor_interleave_math(x)
             }
@@ -1069,6 +1087,7 @@ pub fn build_error_data(a: &ErrDataArg) -> hest::GenericErrorData {
     d.timestamp = a.timestamp;
     for g in &a.data {
         d.add_data(Box::new(mk_gas(g)));
+        peek(&d, a.data.len() + a.flags as usize);
     }
     d
 }
